@@ -1,20 +1,21 @@
 /-
   Property C01 — every returned route is an executable itinerary in the scenario timetable.
 
-  `C01_modulo_cleanup`: for every dataset, connection set (sorted the way `TransitData` sorts it,
-  arrival times non-decreasing along each trip), walking-router tables and query, every route
-  returned by the single calculation (departure- and arrival-time queries) is a `ValidItinerary`
-  - PROVIDED the journey clean-up (`optimizeJourney`) maps valid journeys to valid journeys
-  (`CleanupPreserves`, the one link of the chain not yet discharged in Lean; it is covered by
-  the correspondence run on the directed rewrite-template stream and by the itinerary validator
-  evaluated on every implementation answer).
-  Proved chain: reverse-scan invariant (`Proofs/Reverse.lean`) -> reconstruction yields a valid
-  journey (`Proofs/JourneyValid.lean`) -> emission renders a valid journey to a valid itinerary
-  (`Proofs/RenderValid.lean`, `Proofs/Emit.lean`).
+  `C01` (bottom of this file): for every well-formed dataset, scenario and query, both time
+  types, every route returned by the single calculation is a `ValidItinerary`
+  (`Spec/Itinerary.lean`).  `C01_with` is the same for any recalculation of the alternatives
+  search.  Proved chain, all in Lean, no hypothesis left:
+    reverse-scan invariant            Proofs/Reverse.lean      (revScanList_inv)
+    reconstruction -> valid journey   Proofs/JourneyValid.lean (reconLoop_valid)
+    clean-up preserves validity       Proofs/Cleanup.lean      (cleanupPreserves: CSL/BTS/GTF/CSS)
+    emission -> valid itinerary       Proofs/RenderValid.lean, Proofs/Emit.lean (emit_valid)
+    dataset facts                     Proofs/DataFacts.lean, Slice.lean, DataWF.lean
+  `C01_modulo_cleanup` is the intermediate statement with the clean-up as a hypothesis.
 -/
 import TrVerif.Proofs.Assembly
 import TrVerif.Proofs.Sort
 import TrVerif.Proofs.DataFacts
+import TrVerif.Proofs.DataWF
 namespace Tr
 
 theorem singleReverse_valid {cx : Ctx} {T : List Conn} (usable : Nat → Bool)
@@ -119,5 +120,88 @@ example : WFSchedule exDs := by
     have : i = 0 ∨ i = 1 := by omega
     have : j = 0 ∨ j = 1 := by omega
     rcases ‹i = 0 ∨ i = 1› with rfl | rfl <;> rcases ‹j = 0 ∨ j = 1› with rfl | rfl <;> simp_all
+
+/-- **C01.**  For every well-formed dataset (unique trip identifiers; arrival and departure
+    times non-decreasing along each trip and no hop of negative duration; walks >= 0; every stop
+    a vehicle leaves from transferable to itself in 0 s), every scenario, every query whose
+    minimum waiting time and transfer maximum are non-negative (the parameter parser guarantees
+    both), departure- and arrival-time queries alike: a route returned by the single calculation
+    is an executable itinerary - access walk offered by the router within the access maximum,
+    rides on scheduled hops of one trip each, boarded before they are left, where boarding resp.
+    alighting is permitted, at the scheduled times; transfer walks that are footpath records of
+    the data for exactly the two stops they join; egress walk offered by the router; every
+    boarding no earlier than the traveller's arrival at the stop plus the minimum waiting time
+    in force for that trip.  No hypothesis about the clean-up remains: `cleanupPreserves`. -/
+theorem C01 (ds : Dataset) (hwf : WFData ds) (p : Params) (hmw : 0 ≤ p.minWait) (hmt : 0 ≤ p.maxTransfer)
+    {r : Route} (h : calculateSingle ds p = .ok r) :
+    ValidItinerary ds.conns ds.foot (routerLookup ds.access p.maxAccess) (routerLookup ds.egress p.maxEgress)
+      (ds.mwOfTrip p) r :=
+  C01_dataset ds hwf.toWFSchedule p hmw
+    (fun depT arrT => cleanupPreserves (timeWF_dataset hwf p hmw hmt _ _ _ depT arrT) (sliceOK_dataset hwf p _ _ _ depT arrT)) h
+
+/-- the same for every route of an alternatives answer is clause (c) of C10: each alternative is
+    `calculateSingleWith` on the same tables with more lines excluded and a smaller maximum -/
+theorem C01_with (ds : Dataset) (hwf : WFData ds) (p : Params) (hmw : 0 ≤ p.minWait) (hmt : 0 ≤ p.maxTransfer)
+    (sc : Scenario) (a e : List NTD) {r : Route}
+    (h : calculateSingleWith (ds.restrict (ds.connSetOf sc)) (ds.connSetOf sc) p a e = .ok r) :
+    ValidItinerary ds.conns ds.foot a e (ds.mwOfTrip p) r := by
+  have hsub := connSetOf_rev_sub ds sc
+  have hm : ArrMono (ds.connSetOf sc).rev := fun x hx y hy => conns_arrMono hwf.toWFSchedule x (hsub x hx) y (hsub y hy)
+  exact C01_modulo_cleanup (ds.restrict (ds.connSetOf sc)) (ds.connSetOf sc) p a e ds.conns hsub (connSetOf_sorted ds _)
+    hm hmw (ds.mwOfTrip p) (fun c hc => conns_effWait hwf.toWFSchedule p c (hsub c hc))
+    (fun depT arrT => cleanupPreserves (timeWF_dataset hwf p hmw hmt sc a e depT arrT) (sliceOK_dataset hwf p sc a e depT arrT)) h
+
+/-! ### every returned route is `emit` of a valid journey (used by C06 and C02) -/
+
+theorem singleReverse_emits {cx : Ctx} (usable : Nat → Bool)
+    (hs : SortedRev cx.cs.rev) (hm : ArrMono cx.cs.rev) (hmw : 0 ≤ cx.p.minWait)
+    (hclean : CleanupPreserves cx cx.cs.rev) {r : Route} (h : singleReverse cx usable = .ok r) :
+    ∃ bd j, r = emit cx.ds cx.p.minWait bd j ∧ JourneyOK cx cx.cs.rev bd j := by
+  unfold singleReverse at h
+  cases hl : lookupPos (revLookup cx.cs.rev cx.cs.revIdx (hourOf cx.arrT + 1)) with
+  | none => rw [hl] at h; cases h
+  | some start =>
+    rw [hl] at h
+    simp only at h
+    split at h
+    · cases h
+    · have hsub : ∀ a ∈ cx.cs.rev.drop start, a ∈ cx.cs.rev := fun a ha => List.mem_of_mem_drop ha
+      have hsorted : SortedRev ([] ++ cx.cs.rev.drop start) := by
+        show List.Pairwise _ ([] ++ cx.cs.rev.drop start)
+        rw [List.nil_append]
+        exact List.Pairwise.sublist (List.drop_sublist _ _) hs
+      have hinv := revScanList_inv usable true cx.cs.rev hm hmw (cx.cs.rev.drop start) [] (RState.init cx)
+        (by simpa using hsub) hsorted (init_RInv cx)
+      simp only [List.nil_append] at hinv
+      exact reverseJourney_emits (hinv.mono_pre hsub) hclean h
+
+theorem calculateSingleWith_emits (ds : Dataset) (cs : ConnSet) (p : Params) (accessFoot egressFoot : List NTD)
+    (hs : SortedRev cs.rev) (hm : ArrMono cs.rev) (hmw : 0 ≤ p.minWait)
+    (hclean : ∀ depT arrT, CleanupPreserves (mkCtx ds p cs accessFoot egressFoot depT arrT) cs.rev)
+    {r : Route} (h : calculateSingleWith ds cs p accessFoot egressFoot = .ok r) :
+    ∃ depT arrT bd j, r = emit ds p.minWait bd j ∧ JourneyOK (mkCtx ds p cs accessFoot egressFoot depT arrT) cs.rev bd j := by
+  unfold calculateSingleWith at h
+  split at h
+  · cases h
+  · split at h
+    · cases h
+    · split at h
+      · cases h
+      · split at h
+        · simp only at h
+          split at h
+          · cases h
+          · split at h
+            · cases h
+            · split at h
+              · cases h
+              · rename_i bestArr _ _
+                obtain ⟨bd, j, h1, h2⟩ := singleReverse_emits
+                  (cx := { mkCtx ds p cs accessFoot egressFoot p.time (-1) with arrT := bestArr })
+                  _ hs hm hmw (hclean p.time bestArr) h
+                exact ⟨p.time, bestArr, bd, j, h1, h2⟩
+        · obtain ⟨bd, j, h1, h2⟩ := singleReverse_emits (cx := mkCtx ds p cs accessFoot egressFoot (-1) p.time)
+            _ hs hm hmw (hclean (-1) p.time) h
+          exact ⟨-1, p.time, bd, j, h1, h2⟩
 
 end Tr
